@@ -661,7 +661,7 @@ class Interp(object):
             self.exec_block(st.orelse, fr)
 
     def iterate(self, v):
-        if isinstance(v, (SymList, SymZip)):
+        if isinstance(v, (SymList, SymZip)) or hasattr(v, '_pyvc_family'):
             raise Unsupported("iteration over a symbolic list without a loop contract")
         if isinstance(v, Sym):
             raise Unsupported("iteration over symbolic scalar")
@@ -1598,7 +1598,7 @@ def _h_len(it, x):
         return x.length()
     if isinstance(x, SymZip):
         return x.length()
-    if isinstance(x, SymRange):
+    if isinstance(x, SymRange) or hasattr(x, '_pyvc_family'):
         return x.length()
     if isinstance(x, AbstractSeq):
         return x.length
@@ -1793,6 +1793,9 @@ def _h_tuple(it, xs=()):
 
 
 def _h_enumerate(it, xs, start=0):
+    if isinstance(xs, SymList) or hasattr(xs, '_pyvc_family'):
+        n = xs.length()
+        return SymZip([SymRange(start, start + n), xs])
     return list(enumerate(it.to_list(xs), start))
 
 
@@ -1805,7 +1808,7 @@ class SymZip(object):
     def length(self):
         n = None
         for x in self.lists:
-            ln = x.length() if isinstance(x, SymList) else len(x)
+            ln = x.length() if hasattr(x, 'length') else len(x)
             n = ln if n is None else sym.ite(ln < n, ln, n)
         return n
 
@@ -1817,7 +1820,8 @@ class SymZip(object):
 
 
 def _h_zip(it, *xss, **kw):
-    if any(isinstance(x, SymList) for x in xss) and all(isinstance(x, (SymList, list, tuple)) for x in xss):
+    if any(isinstance(x, SymList) or hasattr(x, '_pyvc_family') for x in xss) \
+            and all(isinstance(x, (SymList, list, tuple)) or hasattr(x, '_pyvc_family') for x in xss):
         return SymZip(list(xss))
     return list(zip(*[it.to_list(x) for x in xss]))
 
